@@ -147,6 +147,12 @@ def general_queries(t):
         "lambda d: SelectMany(Where(a.jets, lambda f: a.met != f.eta), lambda a: SelectMany(Where(Select(ds, lambda g: "
         "{'a': g, 'b': g.met}), lambda h: d.z0 == 5), lambda i: ds)))))",
         "Select(Select(ds, lambda a: First(a.jets)), lambda d: Count(Where(ds, lambda a: Count(Where(a.jets, lambda k: k.pt > d.pt)) > 0)))",
+        # a chain that starts with SelectMany under an outer lambda; f re-uses the outer name,
+        # g (moved under f's binder by the fusion) refers to the OUTER variable
+        "Select(ds, lambda e: Select(SelectMany(e.jets, lambda e: e.tracks), lambda t: t.pt + e.met))",
+        "Select(ds, lambda e: Count(Where(SelectMany(e.jets, lambda e: e.tracks), lambda t: t.pt > e.met)))",
+        "Select(ds, lambda e: SelectMany(SelectMany(e.jets, lambda e: e.tracks), lambda t: Select(e.jets, lambda j: j.pt + t.pt)))",
+        "Select(ds, lambda x: Select(Where(SelectMany(x.jets, lambda x: x.tracks), lambda x: x.pt > 0), lambda t: t.pt * x.met))",
         # keyword-called lambdas (left as calls) whose parameter names also occur in a substituted value
         "Select(Select(ds, lambda e: (lambda a, b: a - b)(e.met, b=1)), lambda v: (lambda a, b: a * b)(v, b=v + 1))",
         "Select(Select(Select(ds, lambda e: (lambda a, b: a - b)(e.met, b=Count(e.jets))), lambda v: v + 2), lambda w: (lambda a, b: a * 10 + b)(w + w, b=3 if 0 < 1 else w))",
